@@ -1,2 +1,3 @@
 /- The second group of byte-level format models (imported by the generated `Gen/LayoutsW.lean` and the driver `Drv/FmtW`). -/
 import Iodata.Model.Fmt.FcidumpW
+import Iodata.Model.Fmt.PoscarW
